@@ -43,6 +43,27 @@ NEEDS = {
  "C19-m2": ("C19", "great_circle_distance: exact-antipode branch returns pi * EARTH_RADIUS instead of pi * radius", "non-default radius and an exactly antipodal pair"),
 }
 
+# first detection run (before the checks were extended): which seeded changes the quick tier of the responsible check missed,
+# and which extension closed the gap
+FIRST_MISS = {
+ "C03-m2": "no raster with 5 or 9 blocks existed -> C03 block_count_sweep (1xN one-cell blocks, N=1..12; 3x3)",
+ "C04-m2": "no +-inf among the category values -> C04 nf/nfa/csel spaces (values {0,1,NaN,-inf,+inf})",
+ "C06-m2": "all cell values were float32-representable -> C06 precision_* spaces (0.3 vs float32(0.3), 2**24+1 vs 2**24, 1e-60, 1e200)",
+ "C09-m2": "C09 is NumPy-only; C01's mean ops all listed NaN in excludes -> C01 op mean_p2_excl_nonan",
+ "C10-m2": "only passes=2 was exercised -> C10 degenerate parameterisations (passes=0, 1x1 kernels, start=goal)",
+ "C11-m1": "alphabet had a single generate_terrain letter -> C11 letters terrain_full_extent_ne/sw (same shape, different window)",
+ "C11-m2": "no letter reached the sub-sampling branch -> C11 letters natural_breaks_sample*; RNG-like default arguments added to the state vector",
+ "C12-m1": "bin edges were float32-representable -> C12 reclassify_edge_* / binary_nf32 spaces",
+ "C13-m1": "results were only computed one at a time -> C01 joint_compute_parameter_families (dask.compute(a, b, ...))",
+ "C13-m2": "no red value within float32 resolution of nodata -> C13 true_color_nodata_edge",
+ "C14-m2": "quick had no grid >= 3x4 -> C14 paths_3x4_fb_le3",
+ "C15-m1": "no negative float values -> C15 *_neg* spaces",
+ "C15-m2": "no pure translation among the transforms -> C15 transform set {identity, translate, flip_y, scale_shift, general}",
+ "C18-m2": "exclusion values were always representable in the raster dtype -> C18 trimx spaces",
+ "C19-m1": "detected, but the per-case replay could not reproduce a history-dependent failure (HARNESS-ERROR) -> runner confirms by replaying the shard prefix as a history",
+}
+
+
 def main():
     for d in sorted(glob.glob("/verif/seeded/*/")):
         sid = os.path.basename(d.rstrip("/"))
@@ -68,6 +89,10 @@ def main():
                 det[os.path.basename(f)[7:-4]] = {"check": m.group(1), "tier": m.group(2), "exit": int(m.group(3)),
                                                   "detected": m.group(4) == "yes", "violation_classes": [c[1] + " x" + c[0] for c in classes]}
         meta["detection"] = det
+        if sid in FIRST_MISS:
+            meta["first_detection_run"] = {"detected": False, "gap_and_extension": FIRST_MISS[sid]}
+        else:
+            meta["first_detection_run"] = {"detected": True}
         json.dump(meta, open(os.path.join(d, "meta.json"), "w"), indent=1)
     print("ok")
 
